@@ -65,8 +65,8 @@ def explore(job: dict) -> dict:
         n = len(h["frames"])
         ops = []
         for _ in range(draw(st.integers(1, 6))):
-            ops.append({"at": draw(st.integers(0, n)), "kind": draw(st.sampled_from(("views", "views", "snapshot", "restore"))),
-                        "include_expired": draw(st.booleans())})
+            ops.append({"at": draw(st.integers(0, n)), "kind": draw(st.sampled_from(("views", "views", "snapshot", "restore", "snapshot-during-restore"))),
+                        "include_expired": draw(st.booleans()), "hops": draw(st.integers(1, 6))})
         return {"frames": h["frames"], "system": h["system"], "mutations": h["mutations"], "eavesdrop": draw(st.booleans()),
                 "discovery": draw(st.integers(0, 2)) == 0, "gap": draw(st.sampled_from((0.01, 0.05, 1.0))),
                 "pauses": {str(draw(st.integers(0, n))): draw(st.sampled_from((30.0, 400.0, 4000.0))) for _ in range(draw(st.integers(0, 2)))},
@@ -78,7 +78,7 @@ def explore(job: dict) -> dict:
         col.case(nt=jdump(hist["frames"]) + jdump(hist["ops"]) if hist["mutations"] and mid else None,
                  classes=["hist", f"sys:{hist['system'][:12]}", "eavesdrop:on" if hist["eavesdrop"] else "eavesdrop:off",
                           "discovery:on" if hist["discovery"] else "discovery:off", "mutated" if hist["mutations"] else "pristine-slice",
-                          "has-restore" if any(o["kind"] == "restore" for o in hist["ops"]) else "no-restore"]
+                          "has-restore" if any("restore" in o["kind"] for o in hist["ops"]) else "no-restore"]
                  + [f"mut:{m}" for m in set(hist["mutations"])],
                  sample={"system": hist["system"], "n": len(hist["frames"]), "mutations": hist["mutations"], "ops": hist["ops"],
                          "n_devices": obs.get("n_devices")})
